@@ -87,3 +87,11 @@ Theorem C04_loop_never_stores_nonpositive : forall (H : ham) fuel sl st,
   mass (bad H) (denote (loop_update fuel H sl st)) == 0.
 Proof. exact loop_update_positive. Qed.
 Print Assumptions C04_loop_never_stores_nonpositive.
+
+(* a directed loop always closes into a consistent configuration (shared with C06) *)
+From QmcV Require Import Model.ClusterValid Proofs.ProgSafety Proofs.LoopWorldLine.
+Theorem C04_loop_closes_consistently : forall H fuel (sl : slots) (st : state),
+  ops_wellformed (length st) sl = true -> wf st sl = true ->
+  all_out_r good (loop_update fuel H sl st).
+Proof. exact loop_update_wf. Qed.
+Print Assumptions C04_loop_closes_consistently.
